@@ -352,10 +352,16 @@ def run_hist_engine(ctx, spec):
     if ctx.pid == "C15":
         for v in (s["stats"].get("IdViolations") or [])[:5]:
             ctx.violation("ids", "change stream: " + v, data={"engine": "hist", "profile": spec["profile"], "seed": seed, "case": 0})
+    if ctx.pid in ("C03", "C04", "C19"):
+        for case, notes in (s.get("notes") or {}).items():
+            for nte in notes:
+                if (nte.startswith("AltRead: Index:") and ctx.pid in ("C03", "C04")) or (nte.startswith("Trigger:") and ctx.pid == "C19"):
+                    ctx.violation("altread", nte + f"  (profile={spec['profile']} seed={seed} case={case})",
+                                  data={"engine": "hist", "profile": spec["profile"], "seed": seed, "case": int(case), "history": vlib.case_text(s["shards"], int(case)) or ""})
     if ctx.pid in ("C01", "C04"):
         for case, notes in (s.get("notes") or {}).items():
             for nte in notes:
-                if nte.startswith("AltRead:") and (("Range visited" in nte) == (ctx.pid == "C04")):
+                if nte.startswith("AltRead:") and "Index:" not in nte and (("Range visited" in nte) == (ctx.pid == "C04")):
                     ctx.violation("altread", "two ways of reading the same state disagree: " + nte[9:] + f"  (profile={spec['profile']} seed={seed} case={case})",
                                   data={"engine": "hist", "profile": spec["profile"], "seed": seed, "case": int(case), "history": vlib.case_text(s["shards"], int(case)) or ""})
     if ctx.pid == "C07":
@@ -810,9 +816,9 @@ PROPS = {
     "C13": dict(engines=[dict(engine="persist", kind="trunc", quick=8, thorough=40), dict(engine="wire", quick=120, thorough=1500)],
                 level_text="theorems about the prefix-safe parsers and the log / restore prefix property (Wire.v, every prefix, no bound) + fault enumeration on the implementation: every sampled prefix (every byte in the thorough tier) of real snapshot and log files is restored; s2 framing is trusted",
                 rule="snapshot files (random history, 0-3 transactions committed during the snapshot) and commit-log files cut at: the first 24 bytes, the state/log boundary +-6, the last 200 bytes, 120 random offsets (every offset in the thorough tier); every cut is a distinct case"),
-    "C14": dict(engines=[dict(engine="persist", kind="fault", quick=3, thorough=9)],
+    "C14": dict(engines=[dict(engine="persist", kind="fault", quick=3, thorough=9), S("snap", 300, 3000, locks=False)],
                 rule="destination writers failing at a chosen call index or byte budget, once or forever, on empty / single-block / multi-block collections, with a transaction committing during the snapshot; every plan is a distinct case"),
-    "C15": dict(engines=[H("mix", 60, 800), H("atomic", 30, 300), S("rows", 150, 3000, dfs_thorough=4000),
+    "C15": dict(engines=[H("mix", 60, 800), H("atomic", 30, 300), S("rows,snap", 150, 3000, dfs_thorough=4000),
                          dict(engine="persist", kind="trunc", quick=3, thorough=6)],
                 rule="histories with a recording logger: emitted commits (decoded per block) compared with the model's stream, ids checked to be distinct, non-zero and increasing per block; non-trivial = >=2 emitted commits with an abort or a multi-block transaction"),
     "C16": dict(engines=[H("sorted", 120, 1500)],
